@@ -39,11 +39,15 @@ def tab_info(T, athlib, ages2):
         for g in 'mf':
             s = t.run_start(g)
             rows = t.rows[g][s:]
-            kms = sorted({int(r.km * 10 ** 6) for r in rows})
+            # a tabulated event's distance is the one its code names (the km column must agree: obligation below)
+            def mm(r):
+                n = W.nominal_metres(r.event)
+                return int(r.km * 10 ** 6) if n is None else int(n * 1000)
+            kms = sorted({mm(r) for r in rows})
             by_km = {}
             FR = {}; BR = {}
             for r in rows:
-                by_km.setdefault(int(r.km * 10 ** 6), []).append(r.event)
+                by_km.setdefault(mm(r), []).append(r.event)
                 FR[r.event] = [W.canon_py(lambda: athlib.wma_age_factor(g, py_age(a2), r.event, year=int(y))) for a2 in ages2]
                 BR[r.event] = W.canon_py(lambda: athlib.wma_world_best(g, r.event, year=int(y)))
             names = {r.event for r in t.rows[g]}
@@ -256,6 +260,14 @@ def run(ctx):
         ctx.oblig('oracle:reading the WMA JSON files', 'translator', False, repr(e))
         return
     H.check_dump(ctx, T, side)
+    bad = []
+    for y in W.YEARS:
+        for g in 'mf':
+            for r in T[y].rows[g][T[y].run_start(g):]:
+                nm = W.nominal_metres(r.event)
+                if nm is not None and Fraction(str(r.km)) * 1000 != nm:
+                    bad.append('%s %s %s: km column %s, the code names %s m' % (y, g, r.event, r.km, float(nm)))
+    ctx.oblig('table:km column of every running row equals the distance its event code names', 'translator', not bad, '; '.join(bad[:4]))
     ages2 = sorted(set(FIXED_AGES2) | set(ctx.rng.sample(range(11, 231, 2), 3)))
     info = tab_info(T, athlib, ages2)
     jobs = jobs_for(ctx, T)
